@@ -149,6 +149,7 @@ const MARKERS: &[&str] = &[
     "\"relation\"",
     "\"tables\"",
     "\"named_args\"",
+    "FMT ",
     "\nRQ ",
     "\nSQL ",
     "PL ",
